@@ -49,10 +49,14 @@ class LoopInv:
         self.name = name
         self.frame_unchanged = frame_unchanged
 
-    # -- lvalue access
-    @staticmethod
-    def _get(ip, frame, path):
+    # -- lvalue access (template names -> names in the code: see _infer_renames)
+    def _code_path(self, path):
         parts = path.split('.')
+        parts[0] = getattr(self, 'rename', {}).get(parts[0], parts[0])
+        return '.'.join(parts)
+
+    def _get(self, ip, frame, path):
+        parts = self._code_path(path).split('.')
         v = ip.lookup_name(parts[0], frame)
         for p in parts[1:]:
             if isinstance(v, Obj):
@@ -63,9 +67,8 @@ class LoopInv:
                 raise Unsupported('invariant path %s' % path)
         return v
 
-    @staticmethod
-    def _set(ip, frame, path, val):
-        parts = path.split('.')
+    def _set(self, ip, frame, path, val):
+        parts = self._code_path(path).split('.')
         if len(parts) == 1:
             f = frame
             while f is not None and parts[0] not in f.vars:
@@ -98,9 +101,9 @@ class LoopInv:
             except (KeyError, Unsupported):
                 if phase == 'init' and want is None:
                     continue
-                ip.prove('%s/%s/%s' % (self.name, phase, path), z3.BoolVal(False),
-                         {'why': 'variable not defined'})
-                continue
+                # the template does not fit the code any more (a local it names does not exist): that is a statement
+                # about my annotation, not about the property -> undecided, never a violation
+                raise Unsupported('invariant template of loop %s names `%s`, which the code does not define here' % (self.name, path))
             ip.prove('%s/%s/%s' % (self.name, phase, path), eq_goal(have, want))
 
     def _havoc(self, ip, frame, k, assigned):
@@ -109,7 +112,7 @@ class LoopInv:
             ip.add_pc(fact)
         if not ip.feasible():
             raise Infeasible()
-        guard = LoopGuard(ip, frame, list(tmpl.keys()), self.name)
+        guard = LoopGuard(ip, frame, [self._code_path(p) for p in tmpl.keys()], self.name)
         for path, val in tmpl.items():
             if isinstance(val, MaybeUndef):
                 val = val.val
@@ -120,13 +123,77 @@ class LoopInv:
             guard.note_installed(c)
         ip.loop_guards.append(guard)
         self._guard = guard
+        roots = {self._code_path(p).split('.')[0] for p in tmpl}
         for name in assigned:
-            if name not in tmpl and not any(p.split('.')[0] == name for p in tmpl):
+            if name not in roots:
                 frame.vars[name] = Opaque('assigned in loop %s but not described by its invariant' % self.name)
+
+    def _infer_renames(self, ip, frame, assigned, loop_targets=()):
+        """A template names the loop-carried locals.  When a name of the template does not occur in the function any more (a
+        local was renamed), look for the unique assignment of the orphaned template names to the loop-carried locals the
+        template does not mention such that every defined one has the template's value at loop entry.  The invariant is then
+        CHECKED (init, preserve, frame) under that assignment, so a wrong guess can only fail, never prove anything false."""
+        import itertools
+        self.rename = {}
+        try:
+            tmpl = self.template(ip, frame, z3.IntVal(0))
+        except Exception:
+            return
+        tmpl.pop('@facts', None)
+        func_names = {n.id for n in ast.walk(frame.func) if isinstance(n, ast.Name)} if frame.func is not None else set()
+        roots = []
+        for p in tmpl:
+            r = p.split('.')[0]
+            if r not in roots:
+                roots.append(r)
+        orphans = [r for r in roots if r not in func_names and r != 'self']
+        if not orphans:
+            return
+        def defined(name):
+            try:
+                return True, ip.lookup_name(name, frame)
+            except Exception:
+                return False, None
+        need_def = [o for o in orphans if not isinstance(tmpl.get(o), MaybeUndef) and tmpl.get(o) is not None]
+        free = sorted(n for n in (set(assigned) | _mutated_names(self._body)) if n not in roots and n not in loop_targets)
+        # loop-carried locals are defined at loop entry (unless the template says MaybeUndef)
+        free_def = [n for n in free if defined(n)[0]]
+        if len(need_def) == len(orphans):
+            free = free_def
+        if len(free) < len(orphans) or len(free) > 6:
+            return
+        good = []
+        for perm in itertools.permutations(free, len(orphans)):
+            ok = True
+            for o, c in zip(orphans, perm):
+                want = tmpl.get(o)
+                isdef, have = defined(c)
+                if isinstance(want, MaybeUndef) or want is None:
+                    continue
+                if isinstance(want, Custom):
+                    continue
+                if not isdef:
+                    ok = False
+                    break
+                try:
+                    g = to_z3(eq_goal(have, want))
+                    if ip.feasible(z3.Not(g)):
+                        ok = False
+                        break
+                except Exception:
+                    ok = False
+                    break
+            if ok:
+                good.append(dict(zip(orphans, perm)))
+        if len(good) == 1:
+            self.rename = good[0]
+            ip.flags.add('INVARIANT_NAMES_REMAPPED')
 
     def run_for(self, ip, st, frame, seq):
         n = seq.length
         assigned = _assigned_names(st.body) | _target_names(st.target)
+        self._body = st.body
+        self._infer_renames(ip, frame, assigned, _target_names(st.target))
         self._check(ip, frame, z3.IntVal(0), 'init')
         if ip.decide(fresh_bool(self.name + '-exit'), 'loop-exit'):
             self._havoc(ip, frame, n, assigned)
@@ -184,6 +251,8 @@ class LoopInv:
 
     def run_while(self, ip, st, frame):
         assigned = _assigned_names(st.body)
+        self._body = st.body
+        self._infer_renames(ip, frame, assigned)
         self._check(ip, frame, z3.IntVal(0), 'init')
         k = fresh_int(self.name + '_k')
         ip.add_pc(k >= 0)
@@ -293,6 +362,19 @@ def _assigned_names(stmts):
         for n in ast.walk(st):
             if isinstance(n, ast.Name) and isinstance(n.ctx, ast.Store):
                 names.add(n.id)
+    return names
+
+
+def _mutated_names(stmts):
+    """local names whose object the statements mutate in place: x.append(..) / x.extend / x.insert / x[...] = .. / x.attr = .."""
+    names = set()
+    for st in stmts:
+        for n in ast.walk(st):
+            if isinstance(n, ast.Call) and isinstance(n.func, ast.Attribute) and isinstance(n.func.value, ast.Name) and \
+                    n.func.attr in ('append', 'extend', 'insert', 'pop', 'update', 'add', 'remove', 'clear', 'sort', 'reverse'):
+                names.add(n.func.value.id)
+            if isinstance(n, (ast.Subscript, ast.Attribute)) and isinstance(n.ctx, ast.Store) and isinstance(n.value, ast.Name):
+                names.add(n.value.id)
     return names
 
 
@@ -531,7 +613,16 @@ def discharge(ob, timeout_ms, target, ctx):
         if r3 is not None:
             out['backend'] = 'z3-4.8.12-cli'
             r = r3
-    if r == z3.unsat or r == 'unsat':
+    if os.environ.get('PYVC_TIER') == 'thorough' and (r == z3.unsat or r == 'unsat') and 'cvc5' not in out['backend']:
+        # thorough tier: an independent solver re-checks every proof found by z3
+        rc = _cvc5(s, 20000)
+        out['cross_check'] = {'solver': 'cvc5 1.0.3', 'result': rc or 'unknown'}
+        if rc == 'sat':
+            r = 'disagree'
+    if r == 'disagree':
+        out['result'] = 'unknown'
+        out['reason'] = 'solvers disagree: %s says unsat, cvc5 says sat' % out['backend']
+    elif r == z3.unsat or r == 'unsat':
         out['result'] = 'discharged'
     elif r == z3.sat:
         out['result'] = 'refuted'
